@@ -123,6 +123,44 @@ class Base:
         w2cases = ["%s\tword-text" % hx(t) for t in dict.fromkeys(w2)]
         w2part = {"name": "printed-words-with-parameters", "harness": "rword", "driver": "rword2", "cases": w2cases, "compare": wcmp,
                   "nontrivial": lambda c: True, "distribution": {"texts": len(w2cases)}}
+        # and with braced parameter expansions (Lex/Reprint3.v, theorem C05_printed_word_with_braced_expansions_is_scanned_back): words
+        # built from a small grammar of names, operators and nested words, plus texts over the characters of the ${ } syntax
+        bnames = ["x", "1", "10", "@", "*", "#", "?", "-", "$", "!", "0", "_a", "x1"]
+        bops = [":-", "-", ":=", "=", ":?", "?", ":+", "+", "%", "%%", "#", "##"]
+
+        def bword(d):
+            out = []
+            for _ in range(wrnd.randint(0, 3)):
+                k = wrnd.random()
+                if k < 0.3:
+                    out.append(wrnd.choice(["a", "b c", "-", "%", "=", ":", "/", "*", "x#", "1"]))
+                elif k < 0.45:
+                    out.append("'" + wrnd.choice(["q", "q r", "}", "$x", ""]) + "'")
+                elif k < 0.6:
+                    out.append('"' + wrnd.choice(["d", "d $x", "\\$", "}", "${y}", ""]) + '"')
+                elif k < 0.7:
+                    out.append("\\" + wrnd.choice(["}", "$", "a", "\\", "'"]))
+                elif k < 0.85:
+                    out.append(wrnd.choice(["$x", "$1", "$#", "$@", "$?"]))
+                elif d > 0:
+                    out.append(brace(d - 1))
+            return "".join(out)
+
+        def brace(d):
+            n_ = wrnd.choice(bnames)
+            k = wrnd.random()
+            if k < 0.2:
+                return "${" + n_ + "}"
+            if k < 0.3:
+                return "${#" + n_ + "}"
+            return "${" + n_ + wrnd.choice(bops) + bword(d) + "}"
+        w3 = ["".join(t) for k_ in range(1, 6) for t in itertools.product(["${", "}", "#", "x", "-", ":", "%", "?"], repeat=k_)]
+        for _ in range(8000 if tier == "quick" else 120000):
+            t = wrnd.choice(["", "a", "'q'", "$x"]) + brace(2) + wrnd.choice(["", "b", '"$y"', brace(1), "\\;"])
+            w3.append(t)
+        w3cases = ["%s\tword-text" % hx(t) for t in dict.fromkeys(w3)]
+        w3part = {"name": "printed-words-with-braced-expansions", "harness": "rword", "driver": "rword3", "cases": w3cases, "compare": wcmp,
+                  "nontrivial": lambda c: True, "distribution": {"texts": len(w3cases)}}
         # the printer's notation for parameter expansions (print_pexp, the model in which F64 is a theorem): nodes built from every
         # combination of braces, names (ordinary, positional, special), operators (none, the fourteen, the length form) and words
         names = ["x", "10", "#", "?", "-", "@", "*", "0", "_a1", "\u00e9"]
@@ -131,7 +169,7 @@ class Base:
                   for w_ in ("-", "", hx("w"), hx("a b"), hx("*.c"), hx("}"))]
         ppart = {"name": "parameter-notation", "harness": "pexp", "driver": "pexp", "cases": pcases,
                  "nontrivial": lambda c: True, "distribution": {"nodes": len(pcases)}}
-        return ([hpart] if hpart else []) + [wpart, w2part, ppart] + [{"name": "programs-x-configs", "harness": "rt", "driver": None, "cases": cases, "impl_ok": impl_ok, "chunk": 40,
+        return ([hpart] if hpart else []) + [wpart, w2part, w3part, ppart] + [{"name": "programs-x-configs", "harness": "rt", "driver": None, "cases": cases, "impl_ok": impl_ok, "chunk": 40,
                  "nontrivial": lambda c: len(c.split("\t")[0]) > 8,
                  "distribution": {"programs": len(progs), "all_256_configs_on": sum(1 for c in cases if "\tall\t" in c), "pairwise_16_on": sum(1 for c in cases if "\tall\t" not in c)}}]
 
@@ -159,7 +197,7 @@ class Base:
 
     def shrink(self, u, C):
         f = u["case"].split("\t")
-        if u.get("part") in ("printed-words", "printed-words-with-parameters", "parameter-notation"):
+        if u.get("part") in ("printed-words", "printed-words-with-parameters", "printed-words-with-braced-expansions", "parameter-notation"):
             return u
         k0 = kind(u["impl"])
 
@@ -172,9 +210,9 @@ class Base:
 
     def replay(self, payload, C):
         c = payload["case"]
-        if payload.get("part") in ("printed-words", "printed-words-with-parameters"):
+        if payload.get("part") in ("printed-words", "printed-words-with-parameters", "printed-words-with-braced-expansions"):
             i = C.run_harness("rword", [c])[0]
-            m, _ = C.run_driver("rword" if payload.get("part") == "printed-words" else "rword2", [c], [i])[0]
+            m, _ = C.run_driver({"printed-words": "rword", "printed-words-with-parameters": "rword2"}.get(payload.get("part"), "rword3"), [c], [i])[0]
             print("case : the word written as %r\nimpl : %s\nmodel: %s" % (unhx(c.split("\t")[0]).decode("utf-8", "replace"), i, m))
             f = m.split(" ")
             ok = m in ("unmodelled", "noarg") or (i.startswith(("error", "shape")) and int(f[3]) > 1) or (i.rstrip() == " ".join(f[:3]) and f[0] == f[2])
